@@ -3,4 +3,5 @@ CONSTANTS Names = {"A", "B", "AB"} Values = {"", "v w", "p=q:r"} MaxOps = 5
 INVARIANT Agree
 CONSTANT ReadShapes <- ShapesSmall
 CONSTANT ReadMax = 2
+CONSTANT PairShapes <- PairsSmall
 CHECK_DEADLOCK FALSE
